@@ -287,6 +287,10 @@ static int cb_valid(cfg_t *cfg, cfg_opt_t *opt)
 	unsigned int i, n = cfg_opt_size(opt);
 	int fail = failing();
 
+	/* a validation callback reads a CFG_SIMPLE option the way an application does: through the getters, which
+	 * give the caller's variable - one value */
+	if (opt->simple_value.ptr)
+		n = 1;
 	fputs("T valid ", obs);
 	puthex(opt->name);
 	fprintf(obs, " %u", n);
